@@ -20,7 +20,7 @@ MANIFEST = dict(
    text="TLC explores every interleaving of the gameplay create path with the audio thread's remove-and-add step for both storage flavours against the property-level monitor (capacity accounting, count, prompt removal, destruction thread, stale ids) and structural invariants; TLC-generated schedules (random, directed witnesses, and the schedule that broke the code before the fix) are forced onto the real library through yield points and every recorded session is validated by TLC against P_C08. Exhaustive for small capacities/item counts, sampled beyond.",
    note="atomic_arena's try_reserve/free CAS loops are model-checked at access granularity for one reserving and one freeing thread (ArenaCtl.tla) and used as single steps in Arena.tla. Trusted: rtrb rings; SeqCst atomics. Racy replays target main-track sounds, clocks and modulators; the other five arenas run the same generic code and are covered by sequential histories. Listener count is not observable through the public API.")
 # (tsound_p / nested_p: sounds and sub-tracks of a parent track that is paused throughout - resources come and go all the same)
-KINDS = ["sound", "tsound", "subtrack", "nested", "send", "clock", "modulator", "listener", "tsound_p", "nested_p"]
+KINDS = ["sound", "tsound", "subtrack", "nested", "send", "clock", "modulator", "listener", "tsound_p", "nested_p", "tsound_s", "nested_s"]   # _s: the parent is a spatial track
 
 
 def cfg_text(n, items, selfref, ucap, replayable, merged, maxcb, extra=""):
